@@ -5,6 +5,8 @@ package hmirror
 import (
 	"context"
 	"fmt"
+	"log/slog"
+	"os"
 	"strings"
 	"testing/synctest"
 	"time"
@@ -108,6 +110,7 @@ type node struct {
 	curR uint32
 
 	restarts  int
+	lastErr   string // last error-level (or quitting) message the engine logged
 	blocked   string
 	delivered map[dkey]map[int]bool
 	replayJump bool
@@ -368,6 +371,31 @@ func (s nRoundStore) OverwriteRoundPrecommitProofs(ctx context.Context, h uint64
 	return s.fRoundStore.OverwriteRoundPrecommitProofs(ctx, h, r, p)
 }
 
+// capLog records the last messages the engine logged, to name the cause when a kernel returns silently.
+type capLog struct {
+	n *node
+}
+
+func (h capLog) Enabled(_ context.Context, l slog.Level) bool { return l >= slog.LevelInfo }
+func (h capLog) Handle(_ context.Context, r slog.Record) error {
+	sys := ""
+	r.Attrs(func(a slog.Attr) bool {
+		if a.Key == "e_sys" {
+			sys = a.Value.String()
+		}
+		return true
+	})
+	if r.Level >= slog.LevelError || strings.Contains(r.Message, "quitting") || strings.Contains(r.Message, "Quitting") {
+		h.n.lastErr = r.Message
+	}
+	if os.Getenv("VERIF_LOG") != "" {
+		fmt.Fprintf(os.Stderr, "LOG %s %s %s\n", r.Level, sys, r.Message)
+	}
+	return nil
+}
+func (h capLog) WithAttrs([]slog.Attr) slog.Handler { return h }
+func (h capLog) WithGroup(string) slog.Handler       { return h }
+
 // ---- construction ----
 
 func newNodeStores(w *world) *nodeStores {
@@ -438,7 +466,7 @@ func (n *node) start() {
 			}
 			done = true
 		}()
-		e, err := tmengine.New(wctx, discardLog, opts...)
+		e, err := tmengine.New(wctx, slog.New(capLog{n}), opts...)
 		if err != nil {
 			n.startErr = "error: " + err.Error()
 			return
